@@ -2,6 +2,8 @@ import VelaVerif.Model.PassPacking
 import VelaVerif.Spec.PassPacking
 import VelaVerif.Lemmas.PassPackingShape2
 import VelaVerif.Lemmas.PassSem
+import VelaVerif.Lemmas.PassPackingFinal
+import VelaVerif.Lemmas.PassPackingSpec
 /-!
 # C01 / C16 / C11 — pass packing (`pass_packing.pack_into_passes`)
 
@@ -10,6 +12,7 @@ Theorems about the model `Model/PassPacking.lean` (tied to the real function by 
 -/
 namespace VelaVerif.Props.C01Packing
 open VelaVerif.PassPacking VelaVerif.PassPackingSpec VelaVerif.Gen.PassPacking VelaVerif.Lemmas.PassPackingWalk
+open VelaVerif.Lemmas.PassPackingDfs VelaVerif.Lemmas.PassPackingSpec
 open VelaVerif.PassSem VelaVerif.Lemmas.PassSem VelaVerif.Rewrites VelaVerif.RewriteSem VelaVerif.Lemmas.Rewrites
 
 /-! ## (e) facts about the regenerated tables (re-checked against the live module on every run) -/
@@ -77,6 +80,43 @@ theorem spec_classes_agree :
     (∀ t ∈ npuPostFuseLimitedOps, isLimitedType t = true) ∧ (∀ t ∈ npuPostOps, isLimitedType t = false) ∧
     (∀ t ∈ macMainOps ++ elemWiseMainOps ++ memcpyOps ++ startupInitOps ++ memoryOnlyOps ++ cpuOps, isPostType t = false) := by decide
 
+
+/-! ## (a), (b) the passes are a partition of the operators in an order that respects the dependencies
+
+For EVERY graph description that is well-formed (`Spec.WF`: the relations `tens.ops` / `op.outputs` and `consumers()` /
+`op.inputs` agree as `update_consumers` leaves them, acyclic, nothing dead, start-up operators without inputs, no operator
+reading two outputs of one producer) on which the traversal does not raise: the proofs go through the invariants of the
+traversal's reference counts (`Lemmas/PassPackingDfs … PassPackingFinal`). `packDfs` is the list before the CPU passes are
+regrouped; the regrouped list is a permutation of it that `build_pass_links` re-checks (`final_*` below). -/
+
+/-- **packing_partitions_ops.** Every operator of the subgraph is in exactly one pass, and the passes hold nothing else. -/
+theorem packing_partitions_ops (G : Graph) (ps : List Pass) (hwf : WF G) (h : packDfs Rules.current G = .ok ps) :
+    Partition G (ps.map toSpec) := by
+  obtain ⟨rk, hW⟩ := wf_wfu hwf
+  exact packDfs_partition hW h
+
+/-- **packing_respects_dependencies.** In the concatenation of the passes every producer of an input of an operator comes before
+    that operator: the pass list is a topological order of the quotient graph and inside a pass the operators are in
+    dataflow order. -/
+theorem packing_respects_dependencies (G : Graph) (ps : List Pass) (hwf : WF G) (h : packDfs Rules.current G = .ok ps) :
+    TopoOrder G (ps.map toSpec) := by
+  obtain ⟨rk, hW⟩ := wf_wfu hwf
+  exact packDfs_topo hW h
+
+/-- the same with the executable well-formedness check and the executable clauses the check applies to REAL pass lists -/
+theorem packing_clauses_checked (G : Graph) (ps : List Pass) (hwf : wfB G = true) (h : packDfs Rules.current G = .ok ps) :
+    partitionB G (ps.map toSpec) = true ∧ topoB G (ps.map toSpec) = true :=
+  ⟨(partitionB_iff G _).mpr (packing_partitions_ops G ps (wfB_sound G hwf) h),
+   (topoB_iff G _).mpr (packing_respects_dependencies G ps (wfB_sound G hwf) h)⟩
+
+/-- inside a pass: every operator but the last has exactly one reader, a LATER operator of the same pass (a chain when the
+    readers are unary, in general a tree towards the last operator): consequence of (c) `pass_shape` below, stated here for
+    the whole list -/
+theorem pass_shape_all (G : Graph) (ps : List Pass) (hwf : WF G) (hbt : MainHasBlock G) (h : packDfs Rules.current G = .ok ps) :
+    ∀ p ∈ ps, (p.isStartup = false → passShapeB G (toSpec p) = true) ∧
+      (p.isStartup = true → ∀ o ∈ p.ops, startupInitOps.contains (G.op o).type = true) := by
+  obtain ⟨rk, hW⟩ := wf_wfu hwf
+  exact packDfs_shape hW hbt h
 
 /-! ## (c) the shape of a pass -/
 
@@ -255,5 +295,17 @@ open Witness in
 theorem relu_tanh_in_one_pass_witness :
     verdict Rules.current gSigmoidRelu = some ([[0], [1, 2]], true, false) ∧
     verdict Rules.current gReluTanh = some ([[0], [1, 2]], true, false) := by decide +kernel
+
+
+/-! ## non-vacuity: the witness graphs are well-formed and the traversal succeeds on them -/
+
+open Witness in
+example : wfB gSlice = true ∧ wfB gLut = true ∧ wfB gMemcpy = true ∧ wfB gSigmoidRelu = true := by decide +kernel
+
+open Witness in
+example : (packDfs Rules.current gSlice).toOption.map (fun ps => ps.map (·.ops)) = some [[0], [1], [2]] := by decide +kernel
+
+open Witness in
+example : MainHasBlock gSlice := mainHasBlock_of_check gSlice (by decide +kernel)
 
 end VelaVerif.Props.C01Packing
